@@ -609,7 +609,7 @@ def run_case(case, ctx):
 # MANIFEST-BEGIN
 MANIFEST = {
     'technique': 'reference-model monitor: population/connectivity circuit vs the independent semantics of the explicit node-and-edge network, unit by unit (vector field probes, trajectories, population output columns)',
-    'level_text': 'Generated circuits of PopulationTemplate(n) and Connectivity objects (non-square, sparse, signed, non-symmetric matrices, scalar weights, algebraic coupling templates with edge_var_map, delays with and without spread, heterogeneous per-unit parameters) are compared with the reference semantics of the explicit network: derivatives of every unit at random states (positions by value fingerprinting, units must be in unit order), Euler trajectories per unit through population outputs (one column per unit in order), and the explicit circuit built with add_edges_from_matrix. A transposed W, permuted units or swapped pre/post broadcasting changes values by O(1). Delays lie on and off the step grid (fractions above and below one half). Coupling edges may carry their own state variable (dynamic edges), several of them converging on one target; weights include exactly 1.0. Coupling operators with two equations, with their own constants and with scalar weights; pure integrators of connected / unconnected inputs; params for unconnected input variables; runs with a 1-D extrinsic input broadcast to all units; probe family: two connectivities between the same two variables (recorded finding). Zero spread, dde_approx orders, int-declared constants and node_values reaching populations are drawn as well; an update_sibling family applies update_var / node_values to one of two circuits built from the same population and connection containers and requires the sibling to stay the base model. Held on observed circuits only.',
+    'level_text': 'Generated circuits of PopulationTemplate(n) and Connectivity objects (non-square, sparse, signed, non-symmetric matrices, scalar weights, algebraic coupling templates with edge_var_map, delays with and without spread, heterogeneous per-unit parameters) are compared with the reference semantics of the explicit network: derivatives of every unit at random states (positions by value fingerprinting, units must be in unit order), Euler trajectories per unit through population outputs (one column per unit in order), and the explicit circuit built with add_edges_from_matrix. A transposed W, permuted units or swapped pre/post broadcasting changes values by O(1). Delays lie on and off the step grid (fractions above and below one half). Coupling edges may carry their own state variable (dynamic edges), several of them converging on one target; weights include exactly 1.0. Coupling operators with two equations, with their own constants and with scalar weights; pure integrators of connected / unconnected inputs; params for unconnected input variables; runs with a 1-D extrinsic input broadcast to all units; probe family: two connectivities between the same two variables (recorded finding). Zero spread, dde_approx orders, int-declared constants and node_values reaching populations are drawn as well; an update_sibling family applies update_var / node_values to one of two circuits built from the same population and connection containers and requires the sibling to stay the base model. Per-unit lists of integer-declared constants may start with whole numbers; an undelayed and a delayed connection may leave the same source variable. Held on observed circuits only.',
     'level_note': 'Trusted: vp/ref.py (incl. its edge-template and delay semantics).',
 }
 # MANIFEST-END
